@@ -547,10 +547,13 @@ def finding_for(name, kinds, n, layout):
         return 'C03-reduce-axis0-blockwise'
     if fam == 'reduce1' and name[:3] in ('all', 'any') and 'M' in kinds:
         return 'C03-reduce-axis0-blockwise'
-    if name in ('bloc', 'bloc-eq') and multi and n >= 2:
+    if name.startswith('bloc') and multi and n >= 2:
         return 'C03-bloc-order'
     if name in FILL_OPS and multi:
         return 'C03-fill-block-dtype'
+    if (name.startswith(('fillna_leading', 'fillna_trailing', 'fillna(fill)', 'assign.bloc-isna')) and multi
+            and 'M' in kinds and set(kinds) != {'M'}):
+        return 'C03-fill-block-dtype'          # missing_ops fills -1 there: it cannot fit a datetime64 block
     if (name in STRING_RESULT_OPS or (name.startswith('astype') and name.endswith('(str)'))) and multi and any(k in 'UO' for k in kinds):
         return 'C03-str-itemsize'
     if fam in CELLWISE_RAISING and _has_multi_object_block(kinds, layout):
@@ -696,6 +699,109 @@ def layout_cases(ctx, kinds, n):
             yield Case('api:layout-vs-canonical', desc,
                        py_fail=py_fail, tags=tags, nontrivial=(r[0] != 'X'),
                        key=f'L|{kinds}|{n}|{ls}|{name}')
+
+
+# ---- rich missing-value patterns: every row pattern of m cells (missing / present) in ONE frame
+def masked_columns(kinds, mask):
+    """Columns of the given kinds whose missing cells follow `mask` (rows x columns Booleans); kinds without a missing
+    marker (i, h, b, U) ignore the mask.  Present cells are pairwise distinct."""
+    n, m = mask.shape
+    cols = []
+    for j, k in enumerate(kinds):
+        if k in 'fg':
+            a = np.array([np.nan if mask[i, j] else 10.0 * (j + 1) + i + 0.5 for i in range(n)], dtype=np.float64)
+        elif k == 'O':
+            a = np.empty(n, dtype=object)
+            for i in range(n):
+                a[i] = None if mask[i, j] else (100 * (j + 1) + i if (i + j) % 2 else 'o%d_%d' % (j, i))
+        elif k == 'M':
+            a = np.array([np.datetime64('NaT') if mask[i, j] else np.datetime64('2020-01-01') + (40 * j + i) for i in range(n)], dtype='datetime64[D]')
+        else:
+            a = column(k, j, n)
+        a.flags.writeable = False
+        cols.append(a)
+    return cols
+
+
+def pattern_mask(m, which, rng=None):
+    if which == 'all-rows':          # row r is missing where bit j of r is set: every one of the 2**m row patterns
+        return np.array([[bool((r >> j) & 1) for j in range(m)] for r in range(2 ** m)], dtype=bool).reshape(2 ** m, m)
+    n, density = which
+    return np.array([[rng.random() < density for _ in range(m)] for _ in range(n)], dtype=bool).reshape(n, m)
+
+
+def missing_ops(kinds):
+    fill = np.datetime64('1999-01-01') if set(kinds) == {'M'} else (-1.5 if set(kinds) <= set('fg') else -1)
+    out = []
+    add = lambda name, fn: out.append((name, fn))
+    for ax in (0, 1):
+        add(f'fillna_leading{ax}', lambda f, ax=ax: f.fillna_leading(fill, axis=ax))
+        add(f'fillna_trailing{ax}', lambda f, ax=ax: f.fillna_trailing(fill, axis=ax))
+        for lim in (0, 1, 2):
+            add(f'fillna_forward{ax}-limit{lim}', lambda f, ax=ax, lim=lim: f.fillna_forward(lim, axis=ax))
+            add(f'fillna_backward{ax}-limit{lim}', lambda f, ax=ax, lim=lim: f.fillna_backward(lim, axis=ax))
+        add(f'dropna{ax}-any', lambda f, ax=ax: f.dropna(axis=ax, condition=np.any))
+        add(f'dropna{ax}-all', lambda f, ax=ax: f.dropna(axis=ax, condition=np.all))
+        add(f'count{ax}', lambda f, ax=ax: f.count(axis=ax))
+        for red in ('sum', 'min', 'max', 'mean', 'prod', 'all', 'any', 'cumsum'):
+            add(f'{red}{ax}', lambda f, red=red, ax=ax: getattr(f, red)(axis=ax))
+            add(f'{red}{ax}-noskipna', lambda f, red=red, ax=ax: getattr(f, red)(axis=ax, skipna=False))
+    add('isna', lambda f: f.isna())
+    add('notna', lambda f: f.notna())
+    add('fillna(fill)', lambda f: f.fillna(fill))
+    add('values', lambda f: f.values)
+    add('bloc-isna', lambda f: f.bloc[f.isna()])
+    add('assign.bloc-isna', lambda f: f.assign.bloc[f.isna()](fill))
+    return out
+
+
+QUICK_PATTERNS = [('gggg', 'all-rows'), ('ggg', 'all-rows'), ('OOOO', 'all-rows'), ('MMM', 'all-rows'), ('ggOg', 'all-rows'), ('gig', 'all-rows')]
+THOROUGH_PATTERNS = QUICK_PATTERNS + [('gg', 'all-rows'), ('OOO', 'all-rows'), ('MMMM', 'all-rows'), ('ggOO', 'all-rows'), ('gMMg', 'all-rows'),
+                                      ('Ogg', 'all-rows'), ('ggggg', 'all-rows'), ('gggOO', 'all-rows')]
+
+
+def missing_cases(ctx):
+    """Every layout of frames holding EVERY row pattern of missing cells, for the missing-value operations and skipna reductions."""
+    specs = list(QUICK_PATTERNS if ctx.tier == 'quick' else THOROUGH_PATTERNS)
+    for _ in range(ctx.n(2, 8)):                     # random masks over 3 rows (column patterns for the axis-0 operations)
+        kinds = ctx.rng.choice(('ggg', 'gggg', 'OOg', 'ggO', 'MMg', 'gOg'))
+        specs.append((kinds, (3, ctx.rng.choice((0.3, 0.5, 0.7)))))
+    for kinds, which in specs:
+        m = len(kinds)
+        mask = pattern_mask(m, which, ctx.rng)
+        n = mask.shape[0]
+        cols = masked_columns(kinds, mask)
+        mk = lambda lay: zoo.frame_from_columns(cols, lay, index=tuple(range(n)), columns=COL_LABELS[:m], name='fr')
+        canon = canonical_layout(m)
+        ops = missing_ops(kinds)
+        fc = mk(canon)
+        ref = {name: observe(fn, fc) for name, fn in ops}
+        wname = which if isinstance(which, str) else 'random:' + ''.join('1' if x else '0' for x in mask.ravel())
+        for lay in zoo.layouts_for([c.dtype for c in cols]):
+            if lay == canon:
+                continue
+            f = mk(lay)
+            ls = zoo.layout_str(lay)
+            ctx.count('missing-patterns', f'missing:m={m}')
+            for name, fn in ops:
+                o = observe(fn, f)
+                r = ref[name]
+                fam = op_family(name)
+                fid = finding_for(name, kinds, n, lay)
+                tags = _TAGS.get(('missing', fam, fid))
+                if tags is None:
+                    tags = {'stratum': 'missing', 'family': fam}
+                    if fid:
+                        tags['finding'] = fid
+                    _TAGS[('missing', fam, fid)] = tags
+                py_fail = None
+                if o != r:
+                    py_fail = f'{name} on layout {ls} gives {short(o)}; on the all-1-D layout of the same columns it gives {short(r)}'
+                yield Case('api:missing-patterns',
+                           {'kinds': kinds, 'mask': wname, 'layout': ls, 'op': name,
+                            'replay': (f"from sfv.props.c03 import masked_columns, pattern_mask, missing_ops; from sfv import zoo; cols = masked_columns({kinds!r}, <mask {wname}>); "
+                                       f"f = zoo.frame_from_columns(cols, {lay!r}, index=tuple(range({n})), columns={COL_LABELS[:m]!r}); dict(missing_ops({kinds!r}))[{name!r}](f)")},
+                           py_fail=py_fail, tags=tags, nontrivial=(r[0] != 'X'), key=f'N|{kinds}|{wname}|{ls}|{name}')
 
 
 # ---- operations that take ANOTHER Frame: the argument's layout varies independently of the receiver's
@@ -1223,4 +1329,5 @@ def cases(ctx):
                 if len(kinds) <= 4:
                     yield from append_cases(ctx, kinds, n)
                 yield from history_cases(ctx, kinds, n)
+            yield from missing_cases(ctx)
             yield from malformed_cases(ctx)
